@@ -272,8 +272,10 @@ def t_case_lookup(ck, ctx, rule="T-CASE-LOOKUP"):
     alpha_tables = {k for k, v in ns.items() if isinstance(v, (dict, set, frozenset, list, tuple)) and
                     any(isinstance(x, str) and any(c.isalpha() for c in x) for x in v)}
     n = 0
+    from .inline import inline_locals
     for f in S.parser_family_funcs(ctx):
-        for node in ast.walk(f.node):
+        # `v = t.value.upper(); tok.x.get(v)` is the same look-up as `tok.x.get(t.value.upper())`
+        for node in ast.walk(inline_locals(f.node)):
             tbl, arg = None, None
             if isinstance(node, ast.Call) and isinstance(node.func, ast.Attribute) and node.func.attr == "get" \
                     and isinstance(node.func.value, ast.Attribute) and isinstance(node.func.value.value, ast.Name) and node.args:
